@@ -100,24 +100,21 @@ def shard(shard_no, nshards, seed, tier, extra):
             if rng.random() < 0.02:
                 ln = 24576
             code, feats = bytes(rng.getrandbits(8) for _ in range(ln)), {"random-bytes"}
-        elif r < 0.50:
+        elif r < 0.48:
             code, f = progs.sinks(rng, B + [len(B)])
             feats = {"sinks"} | f
-        elif r < 0.54:
+        elif r < 0.50:
             code, f = progs.deep_chain(rng)
             feats = {"deep-chain"}
-        elif r < 0.58:
+        elif r < 0.54:
             code, f = progs.every_producer(rng)
             feats = {"every-producer"}
-        elif r < 0.6:
+        elif r < 0.57:
             code, f = progs.typed_widths(rng)
             feats = {"typed-widths"}
-        elif r < 0.61:
+        elif r < 0.62:
             code, f = progs.cyclic_types(rng)
             feats = {"cyclic-types"}
-        elif r < 0.62:
-            code, f = progs.deep_chain(rng)
-            feats = {"deep-chain"}
         elif r < 0.7:
             code, feats = progs.mask_shift(rng)
             feats = {"mask-shift"} | feats
